@@ -86,7 +86,7 @@ var propC03 = &modelProp{
 	nt: func(e *Env) bool {
 		return e.flags["rejected-unique"] > 0 && e.flags["reuse-of-released-unique-value"] > 0
 	},
-	rule: "configurations with 1-3 unique paths of any indexable type (ints, uints, floats, strings incl. upper/lower, times, nested/through-pointer/embedded paths), tiny value domains so conflicts are the norm; ops: insert, update onto another object's key, update releasing a key, resave, delete then reuse, resurrect, batches, reopen/abandon between any two. Oracle: the model decides accept/reject exactly (iff): rejected <=> another stored object holds the canonicalised value in some unique field, error satisfies IsUnique; accepted writes must not be rejected; all read paths equal the model after every op (so pairwise distinctness holds). Non-trivial: >=1 expected rejection and >=1 accepted reuse of a value released by a delete or update. Distinct by program hash.",
+	rule: "configurations with 1-3 unique paths of any indexable type (ints, uints, floats, strings incl. upper/lower, times, nested/through-pointer/embedded paths), tiny value domains so conflicts are the norm; ops: insert, update onto another object's key, update releasing a key, resave, delete then reuse, resurrect, batches, reopen/abandon between any two. Oracle: the model decides accept/reject exactly (iff): rejected <=> another stored object holds the canonicalised value in some unique field, error satisfies IsUnique; accepted writes must not be rejected; all read paths equal the model after every op (so pairwise distinctness holds). TestC03Mass repeats the oracle on big collections: 1030-1730 objects with a unique integer key and two indexed fields, filled in a generated key order, deleted down to 2..N/4 survivors in another generated order by single deletes and range search-deletes; at checkpoints and at the end Count, the sorted unique index, group counts of the indexed field and Control equal a map model; stored keys are refused for a second object, released keys are accepted at once (most recent, smallest and largest), before and after a reopen. Non-trivial: >=1 expected rejection and >=1 accepted reuse of a value released by a delete or update. Distinct by program hash.",
 }
 
 func init() { propC03.register() }
@@ -160,7 +160,7 @@ var propC13 = &modelProp{
 	},
 	opts: RunOpts{SweepLevel: 1, SweepEveryOp: false, Control: true},
 	nt:   func(e *Env) bool { return e.flags["query-ordered-ties-limit-cuts"] > 0 },
-	rule: "tie-heavy collections; queries that are single comparisons or And chains (Or chains are generated too but carry no order obligation) ending on an indexed path, limits 0,1,2,3,5,100,MaxUint64, with and without Reverse, consumers Collect/Assign/One/AssignOne. Oracle: results are distinct members of the model's match set, exactly min(limit,|matches|) of them, whose key sequence equals the first keys of the model's match set sorted non-increasing (non-decreasing with Reverse) - tie order left free; One = first key or ErrNoObjectFound iff no match; AssignIndex = the model's multiset of values in non-increasing order (times by UnixNano), checked after every op; after a refinement was derived from a search the base search is collected again and must still denote its own matches in index order. Non-trivial: an ordered query whose match set has >=2 distinct keys and >=1 tie with a limit strictly between 0 and |matches|. Distinct by program hash.",
+	rule: "tie-heavy collections; queries that are single comparisons or And chains (Or chains are generated too but carry no order obligation) ending on an indexed path, limits 0,1,2,3,5,100,MaxUint64, with and without Reverse, consumers Collect/Assign/One/AssignOne. Oracle: results are distinct members of the model's match set, exactly min(limit,|matches|) of them, whose key sequence equals the first keys of the model's match set sorted non-increasing (non-decreasing with Reverse) - tie order left free; One = first key or ErrNoObjectFound iff no match; AssignIndex = the model's multiset of values in non-increasing order (times by UnixNano), checked after every op; after a refinement was derived from a search the base search is collected again and must still denote its own matches in index order. Further consumers with exact oracles: Expects(n) / ExpectsZeroOrN(n) with n right, off by one or far off (Err = ErrUnexpectedNumberOfResults iff the count is unexpected, then no consumer returns objects), AssignUnique (the object iff exactly one match, ErrUnexpectedNumberOfResults for more, ErrNoObjectFound for none); connectives are given as strings to Search.Operation in a quarter of the chain links; Len() is checked again after One. Non-trivial: an ordered query whose match set has >=2 distinct keys and >=1 tie with a limit strictly between 0 and |matches|. Distinct by program hash.",
 }
 
 func init() { propC13.register() }
